@@ -16,6 +16,7 @@ RULE = (
     "Oracle: every thread returns the sequentially correct value, no exception (or deadlock) escapes; per distinct call not memoized beforehand the body ran exactly once; afterwards memory_usage == sum of resident sizes, "
     "the LRU queue has no duplicates and equals the resident keys, and the set of resident keys with values equals that of a sequential execution of the same calls; the recorded invocations of each root call equal its sequential record; called again sequentially after the threads finished, every distinct call is served (no body) with its own value. "
     "Non-trivial = a schedule whose preemption was actually taken while the preempted thread was inside the library; distinct by (scenario, preemption)."
+    " Round 5: a scenario with two functions returning partitions."
 )
 ASSUMPTIONS = [
     "interleavings at line/call granularity; a switch inside one line (e.g. within `memory_usage += n`) is not explored; no OS preemption, no multi-process races",
